@@ -447,6 +447,9 @@ def coverage(model, rep, covered, notrun):
 
 
 def check(model, rep):
+    # hidden state Python keeps outside the objects (not modelled by the evaluator): reported before anything else is evaluated
+    from checks.solver_common import package_lints as _package_lints
+    _package_lints(model, rep, 'C07.hidden-state', ('/units/', '/sensors/', '/motor_control/', '/stop_condition/'))
     rep.explain('C07 (necessary condition): units-of-measure analysis by symbolic unit factors. Every function of the package the '
                 'evaluator can run, and every event of the solver IR, is examined: a stored value, returned value, call argument '
                 'or decision whose canonical term still depends on the symbolic factor of an object\'s own unit is reported; '
